@@ -39,11 +39,52 @@ def load_gen():
     return GEN
 
 
+class Env:
+    """where the entry points get their HTM objects and coordinate arrays from.  Default: one HTM object per depth for the
+    whole run, a new array per call.  The `sequence` entry swaps in SeqEnv (its own HTM objects, and the SAME array objects
+    refilled in place from step to step) and FreshEnv (a new HTM object and new arrays for every call)."""
+    def h(self, depth):
+        from esutil import htm
+        if depth not in _H:
+            _H[depth] = htm.HTM(depth)
+        return _H[depth]
+
+    def arr(self, name, values, dtype="f8"):
+        return np.array(values, dtype=dtype)
+
+
+class SeqEnv(Env):
+    def __init__(self):
+        self.H, self.B, self.copy = {}, {}, False
+
+    def h(self, depth):
+        from esutil import htm
+        if depth not in self.H:
+            self.H[depth] = htm.HTM(depth)
+        return self.H[depth]
+
+    def arr(self, name, values, dtype="f8"):
+        v = np.array(values, dtype=dtype)
+        k = (name, v.size, dtype)
+        if self.copy or k not in self.B:
+            if not self.copy:
+                self.B[k] = v
+            return v
+        self.B[k][:] = v                 # same object, contents changed in place
+        return self.B[k]
+
+
+class FreshEnv(Env):
+    def h(self, depth):
+        from esutil import htm
+        return htm.HTM(depth)
+
+
+ENV = [Env()]
+
+
 def htm_of(depth):
-    from esutil import htm
-    if depth not in _H:
-        _H[depth] = htm.HTM(depth)
-    return _H[depth]
+    return ENV[0].h(depth)
 
 
 def key(c):
@@ -191,7 +232,7 @@ class Ids(C13Entry):
             A, D = np.array(ra, dtype="f8").reshape(2, -1), np.array(dec, dtype="f8").reshape(2, -1)
             sra, sdec = ra, dec
         else:
-            A, D = np.array(ra, dtype="f8"), np.array(dec, dtype="f8")
+            A, D = ENV[0].arr("pts_ra", ra), ENV[0].arr("pts_dec", dec)
             sra, sdec = ra, dec
         before = None if per_element is not None or not isinstance(A, np.ndarray) else (A.tobytes(), D.tobytes())
 
@@ -306,6 +347,11 @@ class Intersect(C13Entry):
         if round == 0:
             cs.append({"depth": 10, "ra": 200.0, "dec": 0.0, "radius": 0.1, "samples": [[200.0, 0.05], [200.0, 0.2]],
                        "family": "pinned-by-test-suite"})
+            # the ends of the radius range of the statement, and a signed-zero centre
+            cs.append({"depth": 2, "ra": -0.0, "dec": -0.0, "radius": 90.0, "family": "radius-range-ends", "how": "py",
+                       "samples": [[0.0, 89.9], [90.0, 0.0], [270.0, 0.01], [180.0, 0.0], [90.1, 0.0], [0.0, -89.99], [45.0, 45.0]]})
+            cs.append({"depth": 12, "ra": 123.0, "dec": 45.0, "radius": 1e-4, "family": "radius-range-ends", "how": "np64",
+                       "samples": [[123.0, 45.00005], [123.0, 45.00011], [123.0001, 45.0], [123.0002, 45.0], [123.0, 44.99992]]})
         # (thorough: at most ~10000 triangles per list and 1200 cases keep the generated Coq case files, which are
         # compiled 400 cases at a time, below ~1 GB of coqc memory each)
         forms = ["py", "py", "np64", "positional", "default", "int-flag", "npbool"]
@@ -341,14 +387,17 @@ class Intersect(C13Entry):
                 incl, full = h.intersect(*a), h.intersect(ra=a[0], dec=a[1], radius=a[2], inclusive=False)
             elif how == "int-flag":
                 incl, full = h.intersect(*a, inclusive=1), h.intersect(*a, inclusive=0)
+            elif how == "full-first":       # the other order of the two calls (call history)
+                full = h.intersect(a[0], a[1], a[2], inclusive=False)
+                incl = h.intersect(a[0], a[1], a[2], inclusive=True)
             elif how == "npbool":
                 incl, full = h.intersect(*a, inclusive=np.bool_(True)), h.intersect(*a, inclusive=np.bool_(False))
             else:
                 incl = h.intersect(a[0], a[1], a[2], inclusive=True)
                 full = h.intersect(a[0], a[1], a[2], inclusive=False)
             S = [[c["ra"], c["dec"]]] + c["samples"]          # the centre's own triangle
-            sra = np.array([s[0] for s in S])
-            sdec = np.array([s[1] for s in S])
+            sra = ENV[0].arr("sample_ra", [s[0] for s in S])
+            sdec = ENV[0].arr("sample_dec", [s[1] for s in S])
             sid = h.lookup_id(sra, sdec)
             rr = g.LD(c["radius"]) * g.D2R
             sep = g.sep_rad(c["ra"], c["dec"], sra, sdec)
@@ -738,8 +787,8 @@ class Bincount(C13Entry):
 
         def f():
             depth = c["depth"]
-            ra1, dec1 = np.array(c["ra1"], dtype="f8"), np.array(c["dec1"], dtype="f8")
-            ra2, dec2 = np.array(c["ra2"], dtype="f8"), np.array(c["dec2"], dtype="f8")
+            ra1, dec1 = ENV[0].arr("ra1", c["ra1"]), ENV[0].arr("dec1", c["dec1"])
+            ra2, dec2 = ENV[0].arr("ra2", c["ra2"]), ENV[0].arr("dec2", c["dec2"])
             # stat.histogram needs ~1 s per million bins: lower the depth when the ids of the second
             # list are spread too far (deterministic, recorded in the output)
             while depth > 1:
@@ -748,13 +797,14 @@ class Bincount(C13Entry):
                     break
                 depth -= 1
             h = htm_of(depth)
-            id2 = h.lookup_id(ra2, dec2)
+            id2 = ENV[0].arr("id2", h.lookup_id(ra2, dec2), "i8")
             scale = c["scale"]
-            sc = None if scale is None else (np.array(scale, dtype="f8") if isinstance(scale, list) else scale)
+            sc = None if scale is None else (ENV[0].arr("scale", scale) if isinstance(scale, list) else scale)
             a = (c["rmin"], c["rmax"], c["nbin"], ra1, dec1, ra2, dec2)
             lower, upper, counts = h.bincount(*a, scale=sc)
             mn, mx = id2.min(), id2.max()
             hist, rev = stat.histogram(id2 - mn, rev=True)
+            rev = ENV[0].arr("rev", rev, "i8")
             guard = [x.copy() for x in (ra1, dec1, ra2, dec2, id2, rev)] + ([sc.copy()] if isinstance(sc, np.ndarray) else [])
 
             def unchanged(where):
@@ -830,7 +880,133 @@ class Bincount(C13Entry):
         return self._term("show_bincount_x", c, out, outs=False) if out[0] == "ok" else None
 
 
-ENTRIES = [Ids(), Intersect(), Bincount()]
+# ----------------------------------------------------------------------------------------------
+# sequences: several calls in one process on ONE HTM object per depth and on the SAME array objects
+# ----------------------------------------------------------------------------------------------
+class Sequence(C13Entry):
+    """state carried across calls.  A case is a list of steps (lookup_id / intersect / bincount cases of the entries above);
+    all steps run on the sequence's own HTM objects (one per depth, kept for the whole sequence) and take their coordinate /
+    scale / id / reverse-index arrays from buffers that are the same OBJECTS from step to step, refilled in place
+    (same length, same first and last elements, same address); steps marked copy use new objects with equal contents on the
+    same HTM object.  Every step is judged as usual (its Coq term) and must in addition return exactly what the same call
+    returns on a fresh HTM object with fresh arrays (FreshEnv)."""
+    name = "sequence"
+
+    def __init__(self, base):
+        C13Entry.__init__(self)
+        self.base = base
+
+    @staticmethod
+    def _perturb(r, c, scale_mode):
+        """same sizes, same first and last point of the second list, other contents"""
+        d = dict(c)
+        step = 0.3 * (c["rmax"] if c["scale"] is None else math.degrees(c["rmax"] / (min(c["scale"]) if isinstance(c["scale"], list) else c["scale"])))
+        for a, b in (("ra1", "dec1"), ("ra2", "dec2")):
+            pts = [g.offset(x, y, min(step * r.random(), 10.0), r.uniform(0, 360)) for x, y in zip(c[a], c[b])]
+            if a == "ra2":
+                pts[0], pts[-1] = (c[a][0], c[b][0]), (c[a][-1], c[b][-1])
+            d[a], d[b] = [p[0] for p in pts], [p[1] for p in pts]
+        ang = c["rmax"] if c["scale"] is None else c["rmax"] / (min(c["scale"]) if isinstance(c["scale"], list) else c["scale"])
+        angmin = ang * c["rmin"] / c["rmax"]
+        if c["scale"] is None:
+            ang, angmin = math.radians(ang), math.radians(angmin)
+        if scale_mode == "none":
+            d["scale"], d["rmax"], d["rmin"] = None, math.degrees(ang), math.degrees(angmin)
+        elif scale_mode == "scalar":
+            sc = r.choice([1.0, 10 ** r.uniform(-1, 3.5)])          # exactly 1.0 = the value used when no scale is sent
+            d["scale"], d["rmax"], d["rmin"] = sc, ang * sc, angmin * sc
+        else:
+            base = 10 ** r.uniform(-1, 3.5)
+            d["scale"] = [base * r.uniform(1.0, 3.0) for _ in c["ra1"]]
+            d["rmax"], d["rmin"] = ang * min(d["scale"]), angmin * min(d["scale"])
+        d["family"] = "sequence"
+        d.pop("forms", None)
+        return d
+
+    def cases(self, ctx, round=0):
+        self._ctx = ctx
+        r = ctx.rng
+        bc, it = self.base["bincount"], self.base["intersect"]
+        cs = []
+        modes = ["none", "scalar", "array"]
+        for i in range(ctx.n(6, 40)):
+            A = bc._case(ctx, r, "cap", modes[i % 3])
+            while len(A["ra2"]) < 3:
+                A = bc._case(ctx, r, "cap", modes[i % 3])
+            A["family"] = "sequence"
+            B = self._perturb(r, A, modes[(i + 1) % 3])
+            C = self._perturb(r, A, modes[(i + 2) % 3])
+            P = dict(A)                                     # the second list in another order: same counts, other indices
+            idx = list(range(len(A["ra2"])))
+            r.shuffle(idx)
+            P["ra2"], P["dec2"] = [A["ra2"][j] for j in idx], [A["dec2"][j] for j in idx]
+            for x in (B, C, P):
+                x["nbin"] = r.choice([A["nbin"], r.randrange(1, 9)])
+            B["forms"] = ["minmax-without-ids"]
+            X = it._case(ctx, r, "uniform", 500)
+            Y = it._case(ctx, r, r.choice(["uniform", "seam", "octant"]), 500)
+            for x in (X, Y):
+                x["samples"] = x["samples"][:20]
+                if g.ntri_estimate(A["depth"], x["radius"]) <= 1500:
+                    x["depth"] = A["depth"]
+                x["family"] = "sequence"
+            X2 = dict(X, radius=X["radius"] * r.choice([0.5, 1.0, 2.0]) if X["radius"] < 40 else X["radius"])
+            X2["samples"] = [list(g.offset(X["ra"] % 360.0, X["dec"], min(f * X2["radius"], 179.9), r.uniform(0, 360)))
+                             for f in [r.random() for _ in range(10)] + [r.uniform(1, 3) for _ in range(10)]]
+            L1 = {"pts": [[a, b] for a, b in zip(A["ra2"], A["dec2"])], "how": "f8", "family": "sequence", "maxdepth": 6}
+            L2 = {"pts": [[a, b] for a, b in zip(B["ra2"], B["dec2"])], "how": "f8", "family": "sequence", "maxdepth": 6}
+            X2["how"] = "full-first"            # ... X(inclusive), X(not), X2(not), X2(inclusive), Y2(inclusive), Y2(not)
+            Y2 = dict(Y, radius=X2["radius"], depth=X2["depth"])       # another centre, the radius of the previous call
+            Y2["samples"] = [list(g.offset(Y["ra"] % 360.0, Y["dec"], min(f * Y2["radius"], 179.9), r.uniform(0, 360)))
+                             for f in [r.random() for _ in range(10)] + [r.uniform(1, 3) for _ in range(10)]]
+            # consecutive calls that share what a lazy cache key would use: same objects/lengths/first+last elements (L1, L2;
+            # A, B, P), same centre with another radius (X, X2), same radius with another centre (X2, Y2)
+            steps = [("bincount", A, False), ("lookup_id", L1, False), ("lookup_id", L2, False), ("bincount", B, False),
+                     ("intersect", X, False), ("intersect", X2, False), ("intersect", Y2, False), ("bincount", P, False),
+                     ("bincount", A, False), ("intersect", Y, False), ("intersect", X, False), ("bincount", C, True),
+                     ("lookup_id", L1, True), ("bincount", B, False)]
+            if i % 2:
+                steps = steps[::-1]
+            cs.append({"steps": [{"op": op, "case": dict(c, entry=op), "copy": cp} for op, c, cp in steps], "family": "sequence"})
+        return cs
+
+    def impl(self, c):
+        env, default = SeqEnv(), ENV[0]
+        outs = []
+        try:
+            for k, st in enumerate(c["steps"]):
+                ent = self.base[st["op"]]
+                env.copy = bool(st.get("copy"))
+                ENV[0] = env
+                o = ent.impl(st["case"])
+                ENV[0] = FreshEnv()
+                o2 = ent.impl(st["case"])
+                if key(o) != key(o2):
+                    o = ("err", "EOther", "step %d (%s) depends on the calls made before it: on the reused HTM object/arrays it returned "
+                         "something else than on a fresh HTM object with fresh arrays" % (k, st["op"]), {"reused": o, "fresh": o2})
+                outs.append(o)
+        finally:
+            ENV[0] = default
+        out = ("ok", outs)
+        self.remember(c, out)
+        return out
+
+    def _terms(self, c, out):
+        return [self.base[st["op"]].term(st["case"], tuple(o)) for st, o in zip(c["steps"], out[1])]
+
+    def term(self, c, out):
+        return "fold_left Z.lor [%s] 0" % "; ".join("(%s)" % t for t in self._terms(c, out))
+
+    def nontrivial(self, c, out):
+        return any(self.base[st["op"]].nontrivial(st["case"], tuple(o)) for st, o in zip(c["steps"], out[1]))
+
+    def show(self, c):
+        _, out = self._seen[key(c)]
+        return "[%s]" % "; ".join("(%s)" % t for t in self._terms(c, out))       # the verdict of every step
+
+
+_BASE = {"lookup_id": Ids(), "intersect": Intersect(), "bincount": Bincount()}
+ENTRIES = [_BASE["lookup_id"], _BASE["intersect"], _BASE["bincount"], Sequence(_BASE)]
 
 TRUSTED = [
     "Coq 8.16.1 kernel (coqc, vm_compute; no native_compute).  The discrete C13 theorems (abstract descent, traversal, counts, checkers, "
